@@ -492,8 +492,10 @@ def r5_records(report, repo):
     if len(fb) != 1 or len(fb[0].args) < 2:
       return 'eval-row: BranchRecord.from_branch call not found'
     taken = fb[0].args[1]
-    tv = p.value_of(taken.id) if isinstance(taken, ast.Name) else taken
-    if not (isinstance(tv, ast.Constant) and tv.value is v['should_run']):
+    # a constant per arm, or the value of the evaluation itself
+    tv = lib.eval_expr(taken, v, classify, p,
+                       before_index=p.index_of(lambda n_: n_.contains(fb[0])))
+    if tv is None or bool(tv) is not v['should_run']:
       return 'eval-row: recorded branch_taken disagrees with the evaluation'
     rv = p.last_return().value
     src = p.value_of(rv.id) if isinstance(rv, ast.Name) else rv
